@@ -804,6 +804,13 @@ def wrong_data_counts(invs):
     return bool(ex) and not any(e[0] == "s2" and e[1] == "t" for e in ex)
 
 
+def lost_sector_select(invs):
+    """the second SECTOR SELECT frame did not reach the tag and the reader saw the timeout it takes for the acknowledge:
+    from here on tag and tag object disagree about the sector, the answers of the tag are those of another sector
+    (inherent in the protocol; outside the model, whose command sequences are those of the fault-free run)"""
+    return any(e[0] == "s2" and e[1] == "t" for inv in invs for e in inv if e[0] not in "!?")
+
+
 def oracle_calls(ck, kind, op, invs, raws, nret, what, replay):
     """per primitive call: budget, nothing after an answer, one command; answered writes are not sent again"""
     fam = family(kind)
@@ -1100,11 +1107,12 @@ def one_session(ck, kind, ops, scripts, senses, table, pl, pl_ndef, ref_mem, cfg
             gone = False
     # a write that reports success is in the tag memory (content changing operations of the session: only writes)
     changing = [(op, r) for op, r in zip(ops, res) if table[op][3]]
-    if changing and all(op in ("write", "write2") for op, _ in changing):
+    lost_s2 = any(lost_sector_select(r["invs"]) for r in res)
+    if changing and all(op in ("write", "write2") for op, _ in changing) and not lost_s2:
         op, r = changing[-1]
         if r["out"] == "ok unit" and mem != ref_mem[op]:
             ck.fail("write-reported-success-not-applied", what + "%s returned normally but the tag does not hold the data" % op, replay)
-    if kind not in SESSION_TIED:
+    if kind not in SESSION_TIED or lost_s2:
         ck.case(("session", kind, ops, tuple(scripts), tuple(senses)), True, "session-oracle:%s" % fam)
         return
     # ---- the part of the session the model covers: no operation whose command sequence depends on the tag
@@ -1205,6 +1213,9 @@ def run(ck):
                     if kind in L3ONLY:
                         ck.case((kind, op, script), bool(script.strip("a")), "oracle-only:%s:%s" % (kind, op))
                         continue
+                    if lost_sector_select(r["invs"]):
+                        ck.case((kind, op, script), True, "oracle-only:lost-sector-select")
+                        continue
                     reqs.append(plan.request(cfg, script, r["sensed"]))
                     reals.append("%s # %s # %s # %s" % (r["out"], show_log(r["invs"]),
                                                         ",".join(applied_tokens(kind, r["applied"])) or "-", r["flags"]))
@@ -1284,6 +1295,7 @@ def run(ck):
         "the simulated tags answer a delivered command deterministically (same command, same kind of answer; FeliCa Lite-S write with MAC: accepted once)",
         "ISO-DEP: single-block commands without S(WTX); chaining and waiting time extension are covered by C12",
         "a persisting protocol error on ISO-DEP and any error of the unacknowledged second SECTOR SELECT frame are final by design (not retried)",
+        "a second SECTOR SELECT frame that is lost while the reader sees the timeout it takes for the acknowledge leaves tag and tag object in different sectors (inherent in the Type 2 Tag protocol): such runs are judged by the oracle only, wrong data / a write into the other sector are not counted against the code",
         "sessions are compared with the model up to the first operation whose command sequence depends on tag content that an earlier operation of the session may have changed; the oracle judges all of them",
     ]
     ck.trusted += ["harness/sims/retry_sims.py (tag simulators, fault-injecting frontend)", "lean/Drv/C16.lean (line protocol)"]
